@@ -262,6 +262,18 @@ def r2_ordinal(ctx, cfg='A'):
             off = any(a and a[0] == 'bool' and a[1][0] == 'call' and a[1][1] == LIM + '::applies' and a[2] is False for a in before)
             ctx.check(off, 'check-before-%s' % what.split()[0], 'the %s happens only after the limit was evaluated and did not apply' % what, it.where())
     ctx.floor('effects after the limit check', n_eff, 3)
+    # the event is counted before its handler runs: a handler that drives the runtime itself (`rt.dispatch_all()` as a flush) must find
+    # its own event counted, otherwise the nested loop dispatches one event more than the limit allows
+    n_h = 0
+    for it in its:
+        ev = it.stream()
+        hs = [i for i, e in enumerate(ev) if e[0] == 'c' and e[1].callee == HANDLE]
+        if not hs:
+            continue
+        n_h += 1
+        counted = any(e[0] == 'w' and e[2] == CNT for e in ev[:hs[0]])
+        ctx.check(counted, 'counted-before-handler', 'a dispatched event is counted before its handler runs', it.where())
+    ctx.floor('dispatch steps that run a handler', n_h, 1)
 
 
 def r3_finish(ctx, cfg='A'):
